@@ -199,11 +199,63 @@ def run(ck):
     ok = bool(st) and bool(qi) and all(g.dominated(q, set(g.sites_of_nodes(st))) for q in g.sites_of_nodes(qi))
     ck.ob("C02-O6", sitestr(inst), ok, "the logger is published before the Qt handler is installed" if ok else "the Qt handler is installed before/without publishing the logger",
           key="Logger::installMessageHandler|publish-order")
+    # a message that a sink hands on through a queued signal (SignalSink with a receiver in another thread) needs LogMessage to be a
+    # registered meta-type whenever a logger exists - in synchronous mode the emitting thread is whichever thread logs
+    ck.rule("C02-O8", "qRegisterMetaType<LogMessage> runs on every path of a constructor every logger goes through (OwnThreadHandler, SignalSink), not only when asynchronous mode is switched on")
+    regs = []
+    for f_ in F.fns.values():
+        if f_.body is None or "/src/qtlogger/" not in (f_.file or ""):
+            continue
+        for n_ in f_.calls():
+            if "qRegisterMetaType" in (n_.get("callee") or "") and "LogMessage" in (n_.get("callee") or "") + (n_.get("sig") or "") + (n_.get("type") or "") + json_dumps_small(n_):
+                regs.append((f_, n_))
+    ok_reg = []
+    for f_, n_ in regs:
+        ctor = f_.d.get("kind") == "ctor" and (strip_tmpl(f_.cls or "") == OT or (f_.cls or "").endswith("SignalSink"))
+        g_ = Graph(f_)
+        site = g_.site_of(n_)
+        if site is None:
+            for a_ in f_.ancestors(n_):
+                if a_.get("k") == "decl" and g_.site_of(a_) is not None:
+                    site = g_.site_of(a_)
+                    break
+        if ctor and site is not None and g_.must_pass({site}):
+            ok_reg.append(f_)
+    if not regs:
+        ck.ob("C02-O8", "src/qtlogger", False, "LogMessage is never registered as a meta-type: SignalSink cannot deliver across threads", key="metatype|unregistered")
+    else:
+        f0, n0 = regs[0]
+        ck.ob("C02-O8", sitestr(f0, n0), bool(ok_reg), "LogMessage is registered as a meta-type in %s, on every path" % ok_reg[0].name.split("::")[-1] if ok_reg else
+              "LogMessage is registered as a meta-type only in %s: a synchronous logger whose SignalSink receiver lives in another thread drops the messages of every other thread "
+              "(Qt cannot queue the argument)" % sorted({f_.name.split("::")[-1] for f_, _ in regs}), key="metatype|registered-late")
+    # installing never takes the logger out, not even for a moment: every qInstallMessageHandler reachable from
+    # installMessageHandler() installs the logger's own entry function (a re-install that first restores the previous handler lets
+    # messages logged by other threads in between go to that handler: they never enter the pipeline)
+    ids = F.reachable_from([inst], virtual=False)
+    n_qi = 0
+    for i_ in sorted(ids):
+        f_ = F.fns.get(i_)
+        if f_ is None or f_.body is None or "/src/qtlogger/" not in (f_.file or ""):
+            continue
+        for q in f_.calls("qInstallMessageHandler"):
+            n_qi += 1
+            a0 = skip_copies(deref_local(f_, q["args"][0])) if q.get("args") else None
+            own = isinstance(a0, dict) and ((a0.get("k") == "ref" and (a0.get("name") or "").endswith("Logger::messageHandler")) or
+                                            (a0.get("k") == "unop" and a0.get("op") == "&" and (skip_copies(a0.get("e")).get("name") or "").endswith("Logger::messageHandler")))
+            ck.ob("C02-O7", sitestr(f_, q), own, "installMessageHandler installs the logger's own entry function" if own else
+                  "%s, reached from installMessageHandler(), installs %s: while an installed logger is installed again its messages go to that handler for a moment and bypass the pipeline" %
+                  (f_.name.split("::")[-1], describe(a0)[:40]), key="installMessageHandler|transient-uninstall|%s" % f_.name.split("::")[-1])
+    ck.require(n_qi >= 1, "installMessageHandler no longer reaches qInstallMessageHandler")
     # informational: stateful handlers
     for fld in ("QtLogger::SeqNumberAttr::m_count", "QtLogger::DuplicateFilter::m_lastMessage", "QtLogger::PrettyFormatter::m_threads",
                 "QtLogger::PrettyFormatter::m_threadsIndex", "QtLogger::PrettyFormatter::m_categoryWidth"):
         for f, n, how in field_writes(F, fld):
             ck.notes.append("state %s written (%s) in %s" % (fld.split("::", 1)[1], how, f.sig))
+
+
+def json_dumps_small(n):
+    """type-ish text of a call node (template arguments of the callee are only visible in some of its fields)"""
+    return " ".join(str(n.get(k, "")) for k in ("callee", "sig", "type", "fn"))
 
 
 def lock_order(ck):
